@@ -36,7 +36,7 @@ def request_traces(prog):
             return struct_val(prog, "acmed::identifier::Identifier", {"id_type": variant(IDT, t), "value": vstr(v), "challenge": variant("acmed::acme_proto::Challenge", "Http01")})
         for reuse in (False, True):
             for stored_ok in (True, False):
-                for outcome in ("ok", "bad_pem", "key_mismatch"):
+                for outcome in ("ok", "bad_pem", "key_mismatch", "key_check_error"):
                     def ov(cs, args, stored_ok=stored_ok, outcome=outcome):
                         n = cs.name or ""
                         if n.endswith("::get_error"):
@@ -57,6 +57,8 @@ def request_traces(prog):
                         if n.endswith("X509Certificate::from_pem"):
                             return _err("not PEM") if outcome == "bad_pem" else ok(marker("NEWCERT"))
                         if n.endswith("::has_public_key_of"):
+                            if outcome == "key_check_error":
+                                return _err("public key comparison failed")        # an error of the comparison is not a match
                             return ok(vbool(outcome != "key_mismatch"))
                         if n.endswith("error::Error::prefix") and args:
                             return args[0].deref()
@@ -148,7 +150,7 @@ def store_rule(ctx, rid, tr):
     for k, v in sorted(tr.items()):
         ev = v["events"]
         names = [e[0] for e in ev]
-        who = "kp_reuse=%s, stored key %s, download %s" % (k[0], "readable" if k[1] else "unreadable", {"ok": "valid", "bad_pem": "not PEM", "key_mismatch": "for another key"}[k[2]])
+        who = "kp_reuse=%s, stored key %s, download %s" % (k[0], "readable" if k[1] else "unreadable", {"ok": "valid", "bad_pem": "not PEM", "key_mismatch": "for another key", "key_check_error": "whose key comparison fails with an error"}[k[2]])
         if k[2] != "ok":
             ctx.require(rid, v["result"] == "Err" and "set_keypair" not in names and "write_certificate" not in names, at,
                         "%s: the attempt fails and neither the key nor the certificate file is written (result %s, events %s)" % (who, v["result"], names), [RC, "refused-download", repr(k)])
